@@ -383,6 +383,11 @@ def headerName (i : Nat) (v : Val) (strOf : Str) : Val :=
   | .str s => if isBlankStr s then .str ("Unnamed: ".toList ++ (toString i).toList) else .str s
   | _ => .str strOf
 
+/-- `tuple(row[:n]) + (None,) * (n - len(row))`: the first `n` cells of a stored row, a short row filled up with
+    empty cells (openpyxl's read-only reader yields rows of different lengths when the worksheet part has no
+    `<dimension>` element and its rows store different numbers of cells) -/
+def padTake (n : Nat) (row : List Val) : List Val := row.take n ++ List.replicate (n - row.length) Val.none
+
 /-- `_read_sheet_data(ws)` given `rows = list(ws.iter_rows(values_only=True))` and `str()` of
     the first-row values: `(all_rows, first_row)`; the records are not part of the table -/
 def readSheetData (rows : VGrid) (strOf : Nat → Str) : VGrid × List Val :=
@@ -393,7 +398,7 @@ def readSheetData (rows : VGrid) (strOf : Nat → Str) : VGrid × List Val :=
     | [] => ([], [])
     | _ =>
       let lastCol := findLastDataColumn rows
-      let rows := rows.map (fun row => row.take lastCol)
+      let rows := rows.map (padTake lastCol)
       match rows with
       | [] => ([], [])
       | first :: rest =>
